@@ -149,6 +149,8 @@ class RtGen:
                 o = {"op": "override_param", "name": r.choice(params), "kind": v[0], "value": v[1]}
             elif k == "override_service" and svcs:
                 o = {"op": "override_service", "name": r.choice(svcs), "origin": r.choice(["NewA", "NewB"]), "args": [{"kind": "int", "value": r.randint(0, 9)}, {"kind": "str", "value": "o"}][: r.randint(0, 2)]}
+            elif k == "newctx":
+                o = {"op": "newctx", "ctx": r.randint(1, 3)}
             else:
                 continue
             if k in ("getctx", "taggedctx"):
